@@ -335,6 +335,8 @@ class Store:
                     out.append((k, a))
                 elif a[0] == 'kdict' and a[2] is not None:
                     out.append((k, a[2]))
+                elif a[0] == 'obj' and '@' in a[1]:
+                    out.append((k, a))
         return frozenset(out)
 
     def same(self, other):
@@ -442,16 +444,18 @@ class ExcRec:
 
 
 class Summary:
-    __slots__ = ('ret', 'excs', 'facts', 'pure')
+    __slots__ = ('ret', 'excs', 'facts', 'pure', 'alts')
 
     def __init__(self):
         self.ret = BOT
         self.excs = {}
         self.facts = None      # must-facts gained on normal return (None = no normal return seen yet)
         self.pure = True
+        self.alts = ()         # ((returned value, facts gained), ...) when the function returns different constants / objects
+                               # with different facts: the caller continues with one disjunct per alternative
 
     def snapshot(self):
-        return (self.ret, frozenset(self.excs), self.facts, self.pure)
+        return (self.ret, frozenset(self.excs), self.facts, self.pure, self.alts)
 
 
 class Scope:
@@ -561,6 +565,7 @@ class Frame:
         self.self_atoms = None
         self.yield_cb = None
         self.summary = None
+        self.call_alts = {}       # id(call node) -> alternatives of the most recent call there
         self.depth = 0
 
     def valid_tags(self):
@@ -575,6 +580,29 @@ class ClassInfo:
         self.decorators = {}
         self.record = None      # 'dataclass' / 'namedtuple'
         self.fields = None
+
+
+class ClassTable(dict):
+    """class name -> ClassInfo; an identified object's class `C@n` (object n created while the module was initialised) is C"""
+
+    def __missing__(self, key):
+        if isinstance(key, str) and '@' in key:
+            return dict.__getitem__(self, key.split('@')[0])
+        raise KeyError(key)
+
+    def __contains__(self, key):
+        if isinstance(key, str) and '@' in key:
+            key = key.split('@')[0]
+        return dict.__contains__(self, key)
+
+    def get(self, key, default=None):
+        if isinstance(key, str) and '@' in key:
+            key = key.split('@')[0]
+        return dict.get(self, key, default)
+
+
+def base_class(name):
+    return name.split('@')[0] if '@' in name else name
 
 
 class Args:
@@ -609,7 +637,7 @@ class Interp:
         self.relpath = relpath
         self.line_class = line_class
         self.scopes = {}
-        self.classes = {}
+        self.classes = ClassTable()
         self.funcs = {}
         self.qual = {}
         self.defcls = {}
@@ -645,6 +673,7 @@ class Interp:
         self.binding_atoms = set()
         self.unrefined_type_tests = set()
         self.summary_depth = 0
+        self.ident_counter = 0
         self.partition_unknown = False
         self._mro_cache, self._fm_cache, self._sub_cache = {}, {}, {}
         self._ex = {}
@@ -701,6 +730,7 @@ class Interp:
         return s
 
     def mro(self, cname):
+        cname = base_class(cname)
         if not self.in_module_init:
             m = self._mro_cache.get(cname)
             if m is None:
@@ -724,6 +754,7 @@ class Interp:
         return out
 
     def is_subclass(self, cname, base):
+        cname = base_class(cname)
         if cname == base:
             return True
         if not self.in_module_init:
@@ -752,6 +783,7 @@ class Interp:
         return self.is_subclass(cname, 'BaseException')
 
     def find_method(self, cname, name, after=None):
+        cname = base_class(cname)
         if not self.in_module_init:
             k = (cname, name, after)
             r = self._fm_cache.get(k)
@@ -772,7 +804,7 @@ class Interp:
         return None, None
 
     def find_class_attr(self, cname, name):
-        for c in self.mro(cname):
+        for c in self.mro(base_class(cname)):
             ci = self.classes.get(c)
             if ci is not None and name in ci.attrs:
                 return ci.attrs[name]
@@ -921,7 +953,31 @@ class Interp:
             out.next.append(s_t)
 
     def st_Return(self, fr, st, store, out):
+        if st.value is not None:
+            fr.call_alts.pop(id(st.value), None)
+        if isinstance(st.value, ast.Call) and isinstance(st.value.func, ast.Name) and st.value.func.id == 'all' and len(st.value.args) == 1 \
+                and not st.value.keywords and self.is_builtin_name(fr, 'all'):
+            # `return all(...)`: what the elements established holds when the result is True
+            facts0 = fr.store.facts
+            v, gained = self.eval_all(fr, st.value)
+            fr.store.facts = facts0
+            t = {self.truth(a) for a in v}
+            if gained and t & {'t', '?'} and t & {'f', '?'}:
+                s_t = fr.store.copy()
+                s_t.facts = facts0 | gained
+                out.ret.append((s_t, av(const(True))))
+                out.ret.append((fr.store, av(const(False))))
+                return
+            out.ret.append((fr.store, v))
+            return
         v = av(NONE) if st.value is None else self.eval(fr, st.value)
+        alts = fr.call_alts.pop(id(st.value), None) if isinstance(st.value, ast.Call) else None
+        if alts:
+            for (val, facts) in alts:
+                s2 = fr.store.copy()
+                s2.facts = fr.store.facts | facts
+                out.ret.append((s2, val))
+            return
         out.ret.append((fr.store, v))
 
     KNOWN_DECORATORS = ('abstractmethod', 'contextmanager', 'staticmethod', 'classmethod', 'property', 'lru_cache', 'cache', 'setter', 'getter',
@@ -1088,7 +1144,19 @@ class Interp:
         self._fm_cache.clear()
 
     def st_Assign(self, fr, st, store, out):
+        fr.call_alts.pop(id(st.value), None)
         v = self.eval(fr, st.value)
+        alts = fr.call_alts.pop(id(st.value), None) if isinstance(st.value, ast.Call) else None
+        if alts and len(st.targets) == 1 and isinstance(st.targets[0], ast.Name):
+            # the callee returns different constants / objects on paths with different facts: one disjunct per alternative
+            base = fr.store
+            for (val, facts) in alts:
+                s2 = base.copy()
+                s2.facts = base.facts | facts
+                fr.store = s2
+                self.assign(fr, st.targets[0], val, st)
+                out.next.append(s2)
+            return
         sym = self.sym_of(fr, st.value)
         for t in st.targets:
             self.assign(fr, t, v, st, sym=sym, value_expr=st.value)
@@ -1881,10 +1949,10 @@ class Interp:
                 ek = (id(node), id(site))
                 ev = self.ev_store.get(ek)
                 if ev is None:
-                    self.ev_store[ek] = {'node': node, 'site': site, 'qual': sq, 'cls': {cls}, 'attr': attr, 'val': val, 'ctor': ctor}
+                    self.ev_store[ek] = {'node': node, 'site': site, 'qual': sq, 'cls': {base_class(cls)}, 'attr': attr, 'val': val, 'ctor': ctor}
                 else:
                     ev['val'] = join(ev['val'], val)
-                    ev['cls'].add(cls)
+                    ev['cls'].add(base_class(cls))
             elif a[0] in ('libobj', 'ext') or a == EXT:
                 continue
             elif a == TOP:
@@ -1908,7 +1976,7 @@ class Interp:
                     return av(('list', av(STR_U)))
                 return av(TOP)
             if attr == '__class__':
-                return av(('cls', cls))
+                return av(('cls', base_class(cls)))
             if attr == '__dict__':
                 return self.vars_of(fr, av(a), node)
             v = self.heap.get((cls, attr))
@@ -2773,12 +2841,31 @@ class Interp:
         # generic: truthiness of the value
         if value is None and self.mentions_type_test(test):
             self.unrefined_type_tests.add(id(test))
+        alts = None
         if value is not None:
             v = value
         elif isinstance(test, ast.Compare):
             v = self.compare_value(fr, test)
         else:
+            fr.call_alts.pop(id(test), None)
             v = self.eval(fr, test)
+            alts = fr.call_alts.pop(id(test), None) if isinstance(test, ast.Call) else None
+        if alts:
+            # the callee returns truthy / falsy values on paths with different facts
+            tf = [fs for (val, fs) in alts if {self.truth(a) for a in val} & {'t', '?'}]
+            ff = [fs for (val, fs) in alts if {self.truth(a) for a in val} & {'f', '?'}]
+            s_t, s_f = store, store.copy()
+            if tf:
+                g = tf[0]
+                for x in tf[1:]:
+                    g = g & x
+                s_t.facts = s_t.facts | g
+            if ff:
+                g = ff[0]
+                for x in ff[1:]:
+                    g = g & x
+                s_f.facts = s_f.facts | g
+            return bool(tf), s_t, bool(ff), s_f
         t = {self.truth(a) for a in v}
         ct = bool(t & {'t', '?'})
         cf = bool(t & {'f', '?'})
@@ -3102,7 +3189,7 @@ class Interp:
             return '?'
         if k == 'obj':
             if exact:
-                return 't' if a[1] in names else 'f'
+                return 't' if base_class(a[1]) in names else 'f'
             return 't' if any(self.is_subclass(a[1], n) for n in names) else 'f'
         if k == 'caught':
             res = set()
@@ -3457,6 +3544,8 @@ class Interp:
             gained = g if gained is None else (gained & g)
             out = join(out, r)
         fr.store.facts = facts_in | (gained or frozenset())
+        if ncallees != 1:
+            fr.call_alts.pop(id(node), None)
         return out
 
     def default_value(self, deffr, node):
@@ -3580,7 +3669,7 @@ class Interp:
         facts_in = frozenset(f for f in fr.store.facts if self.fact_tags(f) <= tin)
         okfact = self.ok_fact(q, fnnode, bound, syms) if parent is None else None
         pfid = fnatom[2] if fnatom[0] == 'clo' else 0
-        key = (q, pfid, tuple(sorted(bound.items())), facts_in, tuple(sorted(syms.items())))
+        key = (q, pfid, tuple(sorted(bound.items())), facts_in, tuple(sorted(syms.items())), fr.store.guards)
         is_ctor = any(isinstance(t, tuple) and t and t[0] == 'ctor' for t in tin)
         memo = not scope.mutates_free and not is_ctor
         summ = None
@@ -3617,9 +3706,23 @@ class Interp:
         new_facts = summ.facts
         if okfact is not None and summ.pure:
             new_facts = new_facts | {okfact}
+        if summ.alts:
+            extra = frozenset({okfact}) if (okfact is not None and summ.pure) else frozenset()
+            fr.call_alts[id(node)] = [(map_tags(v, f), fs | extra) for v, fs in summ.alts]
+        else:
+            fr.call_alts.pop(id(node), None)
         if new_facts:
             fr.store.facts = fr.store.facts | new_facts
         return map_tags(summ.ret, f)
+
+    @staticmethod
+    def discriminator(v):
+        """a returned value that tells return paths apart: one string constant, None, or one identified object"""
+        if len(v) == 1:
+            a = next(iter(v))
+            if a == NONE or (a[0] == 'c' and a[1] in ('str', 'bool')) or (a[0] == 'obj' and '@' in a[1]):
+                return a
+        return None
 
     def fact_tags(self, fact):
         out = set()
@@ -3655,7 +3758,7 @@ class Interp:
         callee = Frame(self, q, fnnode, parent, fid, self.defcls.get(id(fnnode)))
         callee.depth = fr.depth + 1
         self.frames[fid] = callee
-        callee.store = Store({k: self.brand(q, k, v) for k, v in bound.items()}, facts_in, frozenset(), dict(syms))
+        callee.store = Store({k: self.brand(q, k, v) for k, v in bound.items()}, facts_in, fr.store.guards, dict(syms))
         callee.tin = set(tin)
         callee.summary = Summary()
         if callee.defcls is not None and self_val is not None:
@@ -3680,15 +3783,20 @@ class Interp:
         new = callee.summary
         rets = BOT
         facts = None
-        for (s, v) in out.ret:
+        groups = {}
+        for (s, v) in list(out.ret) + [(s, av(NONE)) for s in out.next]:
             rets = join(rets, v)
             facts = s.facts if facts is None else facts & s.facts
-        for s in out.next:
-            rets = join(rets, av(NONE))
-            facts = s.facts if facts is None else facts & s.facts
+            d = self.discriminator(v)
+            g = groups.get(d)
+            groups[d] = (v, s.facts) if g is None else (join(g[0], v), g[1] & s.facts)
         new.ret = rets
         if facts is not None:
             new.facts = frozenset(f for f in facts if self.fact_tags(f) <= tin) - facts_in
+            if 1 < len(groups) <= MAX_DISJUNCTS and None not in groups:
+                alts = tuple(sorted(((v, frozenset(f for f in fs if self.fact_tags(f) <= tin) - facts_in) for v, fs in groups.values()), key=str))
+                if any(a[1] != new.facts for a in alts):
+                    new.alts = alts
         for (s, rec) in out.exc:
             k = rec.key()
             if k not in new.excs or len(rec.chain) < len(new.excs[k].chain):
@@ -3703,6 +3811,8 @@ class Interp:
             if old.facts is not None:
                 new.facts = old.facts if new.facts is None else (new.facts & old.facts)
             new.pure = new.pure and old.pure
+            if old.alts and not new.alts and new.facts is not None:
+                new.alts = old.alts
         if old is None or old.snapshot() != new.snapshot():
             self.changed = True
             self.why.append(('summary', q, None if old is None else (old.ret != new.ret, frozenset(old.excs) != frozenset(new.excs), old.facts != new.facts, old.pure != new.pure)))
@@ -3722,7 +3832,12 @@ class Interp:
         self.ctor_counter += 1
         n = self.ctor_counter
         self.ctor_info[n] = {'stores': [], 'site': node, 'qual': fr.qual}
-        selfatom = ('obj', cname, ('ctor', n))
+        oname = cname
+        if self.in_module_init and self.summary_depth == 0 and cname != self.line_class:
+            # created exactly once while the module is initialised: the object keeps an identity (its attributes are its own)
+            self.ident_counter += 1
+            oname = '{}@{}'.format(cname, self.ident_counter)
+        selfatom = ('obj', oname, ('ctor', n))
         c, q = self.find_method(cname, '__init__')
         mkey = (cname, tuple(args.pos), tuple(sorted(args.kw.items())), args.star, args.kwstar, tuple(sorted(args.syms.items(), key=str)))
         cached = self.ctor_memo.get(mkey)
@@ -3777,7 +3892,7 @@ class Interp:
             ev['tags'].add(tag)
         if cname == self.line_class:
             self.ev_line[id(node)] = [(fr.qual, node, args)]
-        return av(('obj', cname, tag))
+        return av(('obj', oname, tag))
 
     def construct_builtin(self, fr, cname, args, node):
         if cname in BUILTIN_EXC_BASES:
@@ -3844,7 +3959,7 @@ class Interp:
         out = set()
         for a in val:
             if a[0] == 'obj':
-                out.add(('cls', a[1]))
+                out.add(('cls', base_class(a[1])))
             elif is_str_atom(a):
                 out.add(('cls', 'str'))
             elif a == BOOL or (a[0] == 'c' and a[1] == 'bool'):
